@@ -781,3 +781,59 @@ func TestC17Loaders(t *testing.T) {
 }
 
 func init() { reg("C17.loader", checkC17Loader) }
+
+// ---- a failing macro body (or parent block) whose call is not the whole of a print tag -------------------
+
+type C17MacroPosCase struct {
+	Which int `json:"which"`
+}
+
+var c17MacroPosSrcs = []string{
+	"{% macro m() %}{{ 'x'|no_such_filter }}{% endmacro %}a{% do m() %}z",
+	"{% macro m() %}{{ 'x'|no_such_filter }}{% endmacro %}a{% set v = m() %}z",
+	"{% macro m() %}{{ 'x'|no_such_filter }}{% endmacro %}a{% if m() %}y{% endif %}z",
+	"{% macro m() %}{{ 'x'|no_such_filter }}{% endmacro %}a{{ m() ~ 'q' }}z",
+	"{% macro m() %}{{ 'x'|no_such_filter }}{% endmacro %}a{{ m()|upper }}z",
+	"{% macro m() %}{{ 'x'|no_such_filter }}{% endmacro %}a{{ [m()]|length }}z",
+	"{% macro m() %}{{ 'x'|no_such_filter }}{% endmacro %}a{% for i in [1] %}{% set v = m() %}{% endfor %}z",
+	"{% macro m() %}{{ 'x'|no_such_filter }}{% endmacro %}a{% include 'leaf' with {'v': m()} %}z",
+	"{% import 'lib' as l %}a{% set v = l.bad() %}z",
+	"{% import 'lib' as l %}a{{ l.bad()|trim }}z",
+	"{% from 'lib' import bad as k %}a{% if k() %}y{% endif %}z",
+	"{% from 'lib' import bad %}a{{ 'p' ~ bad() }}z",
+	"{% extends 'base' %}{% block a %}{% set p = parent() %}!{% endblock %}",
+	"{% extends 'base' %}{% block a %}{{ parent()|upper }}!{% endblock %}",
+	"{% extends 'base' %}{% block a %}{% if parent() %}!{% endif %}{% endblock %}",
+	"{% macro m() %}{{ nofn() }}{% endmacro %}a{% set v = m() %}z",
+	"{% macro m() %}{% include 'does_not_exist' %}{% endmacro %}a{% set v = m() %}z",
+}
+
+// checkC17MacroPos: the failure inside the macro body (parent block) surfaces wherever the call is
+// written: in a set, a condition, a do tag, under a filter, next to ~, as an argument.
+func checkC17MacroPos(c C17MacroPosCase) error {
+	src := c17MacroPosSrcs[c.Which%len(c17MacroPosSrcs)]
+	tm := map[string]string{"main": src, "lib": "{% macro bad() %}{{ 'x'|no_such_filter }}{% endmacro %}", "base": "[{% block a %}{{ 'x'|no_such_filter }}{% endblock %}]", "leaf": "(leaf)"}
+	r := render(newEngine(tm), "main", nil)
+	if r.Panic != "" {
+		return fmt.Errorf("render panicked: %v; source %s", r, q(src))
+	}
+	if !r.Failed() || r.Out != "" {
+		return fmt.Errorf("the body of the macro (the parent block) uses a filter, function or template that does not exist, but Render returned %s with a nil error; source %s", q(r.Out), q(src))
+	}
+	return nil
+}
+
+func TestC17MacroPositions(t *testing.T) {
+	r := NewRec(t, "C17", "exhaustive: 17 templates in which a macro (local, import-as, from-import, alias) or parent() whose body cannot be rendered (unknown filter, unknown function, missing include) is called in a do tag, a set, an if condition, a loop, an include-with value, under a filter, next to ~ or inside a list; oracle: Render returns an error and no output; all cases non-trivial")
+	defer r.Flush()
+	r.SetExhaustive()
+	for i := range c17MacroPosSrcs {
+		c := C17MacroPosCase{Which: i}
+		r.Case(fmt.Sprint(i), true, c17MacroPosSrcs[i])
+		if err := checkC17MacroPos(c); err != nil {
+			r.FailEnum(t, "C17.macropos", c, err)
+		}
+	}
+}
+
+func init() { reg("C17.macropos", checkC17MacroPos) }
